@@ -19,7 +19,7 @@ ASSUMPTIONS = ["comparison allows 4 eps relative (the solver sums squares with n
                "runs with a non-finite recorded objective are left to C08"]
 
 PROF = sc.make_prof(fams=["lin", "sinlin", "rosen", "hashed", "hashed", "boxdomain"], avg=False, noise=False, reg=0.15,
-                    diag=0.1, opts_list=[0, 0, 0, 0, 0, 1, 2, 2, 2, 3, 4, 5, 6, 7, 9, 12, 13], regression_bias=0.08, proj=0.08, nolog=0.05)
+                    diag=0.1, opts_list=[0, 0, 0, 0, 0, 1, 2, 2, 2, 3, 4, 5, 6, 7, 9, 12, 13], regression_bias=0.08, proj=0.14, nolog=0.05)
 
 
 @st.composite
